@@ -210,7 +210,7 @@ def tlc_lines(outpath, tag):
                 yield line[len(pre):].rstrip()[:-2]
 
 
-def validate_trie(outdir, workers=8, timeout=1500, module="TraceShuttle"):
+def validate_trie(outdir, workers=8, timeout=3000, module="TraceShuttle"):
     """Binding A: returns (reached_leaf_ids, all_leaf_ids, tlc_result)."""
     trie = os.path.join(outdir, "trie.ndjson")
     leaves = set()
